@@ -897,7 +897,7 @@ Section Main.
   Proof.
     intros (Hr & Hf & HS & Ht & _). cbn in Hf, HS, Ht. subst fr. cbn [step c_mode c_frames c_st].
     destruct (computed root s) eqn:Hc.
-    - apply CInv_intro; [exact Hr|reflexivity|exact HS|exact Ht|apply (outcome_root spec); auto].
+    - apply CInv_intro; [exact Hr|reflexivity|apply (SInv_view spec None s); [apply heap_drop_sb|apply batches_drop_sb|apply top_next_drop_sb|exact HS]|apply (is_task_view s); [apply heap_drop_sb|exact Ht]|apply (outcome_root spec); auto].
     - apply CInv_intro; [exact Hr|cbn; eauto|apply (SInv_view spec None s); auto|apply (is_task_view s); auto|exact I].
   Qed.
 
@@ -905,7 +905,7 @@ Section Main.
   Proof.
     intros (Hr & Hf & HS & Ht & _). cbn in Hf, HS, Ht. subst fr. cbn [step c_mode c_frames c_st].
     destruct (computed root s) eqn:Hc.
-    - apply CInv_intro; [exact Hr|reflexivity|exact HS|exact Ht|apply (outcome_root spec); auto].
+    - apply CInv_intro; [exact Hr|reflexivity|apply (SInv_view spec None s); [apply heap_drop_sb|apply batches_drop_sb|apply top_next_drop_sb|exact HS]|apply (is_task_view s); [apply heap_drop_sb|exact Ht]|apply (outcome_root spec); auto].
     - destruct (SInv_continue_with_batch spec None P s HP HS) as (A & B & C).
       apply CInv_intro; [exact Hr|reflexivity|exact A| |exact I].
       destruct Ht as (out & tk & Hg). exists out, tk. apply C. exact Hg.
